@@ -51,6 +51,14 @@ class Env:
                 ds = self.defs.get(e.func.value.id, [])
                 if len(ds) == 1 and isinstance(ds[0], ast.Dict) and all(isinstance(v, ast.Constant) and isinstance(v.value, str) for v in ds[0].values) and (len(e.args) < 2 or isinstance(e.args[1], ast.Constant)):
                     return FRAG
+                # ... or the same table as a module-level constant the function does not rebind
+                if not ds and self.mod.has_const(e.func.value.id) and (len(e.args) < 2 or isinstance(e.args[1], ast.Constant)):
+                    try:
+                        cn = self.mod.const_node(e.func.value.id)
+                    except Exception:
+                        cn = None
+                    if isinstance(cn, ast.Dict) and cn.values and all(isinstance(v, ast.Constant) and isinstance(v.value, str) for v in cn.values):
+                        return FRAG
             if isinstance(e.func, ast.Attribute) and e.func.attr == "join" and isinstance(e.func.value, ast.Constant) and len(e.args) == 1:
                 sep = e.func.value.value
                 inner = self.classify_list(e.args[0], depth + 1)
